@@ -331,7 +331,11 @@ fn stmt_to_asg_stmt(stmt: synast::Stmt, context: &mut Context) -> Option<asg::St
 
         synast::Stmt::ForStmt(for_stmt) => {
             let loop_var = for_stmt.loop_var().unwrap();
-            let ty = scalar_type_to_type(&for_stmt.scalar_type().unwrap(), false, context);
+            // A loop variable of array type, eg. `for array[int, 3] a in x {}`, is not supported.
+            let Some(scalar_type) = for_stmt.scalar_type() else {
+                return not_impl!(context, for_stmt);
+            };
+            let ty = scalar_type_to_type(&scalar_type, false, context);
             let iterable_ast = for_stmt.for_iterable().unwrap();
             let iterable = if let Some(set_expression) = iterable_ast.set_expression() {
                 asg::ForIterable::SetExpression(set_expression_to_asg_type(set_expression, context))
